@@ -31,7 +31,10 @@ theorem checkField_needsSan_mono (relaxed : Bool) (st : ClState) (v : Bytes) (h 
       unfold checkList
       cases relaxed with
       | false => simp [h]
-      | true => simp only [Bool.not_true, Bool.false_eq_true, if_false]; exact loop_needsSan true _ _ v rfl
+      | true =>
+        simp only [Bool.not_true, Bool.false_eq_true, if_false]
+        have hns := loop_needsSan true (v.length + 1) { st with needsSanitizing := true } v rfl
+        split <;> exact hns
     · simp only [hc, Bool.false_eq_true, if_false]; exact checkValue_needsSan relaxed st v [] h
 
 theorem runFields_cons (relaxed : Bool) (st : ClState) (v : Bytes) (vs : List Bytes) :
